@@ -1043,8 +1043,6 @@ void cc_deque_iter_init(CC_DequeIter *iter, CC_Deque *deque)
 enum cc_stat cc_deque_iter_next(CC_DequeIter *iter, void **out)
 {
     const size_t c     = (iter->deque->capacity - 1);
-    const size_t last  = (iter->deque->last) & c;
-    const size_t first = (iter->deque->first) & c;
 
     if (iter->index >= iter->deque->size)
         return CC_ITER_END;
@@ -1185,15 +1183,11 @@ void cc_deque_zip_iter_init(CC_DequeZipIter *iter, CC_Deque *d1, CC_Deque *d2)
 enum cc_stat cc_deque_zip_iter_next(CC_DequeZipIter *iter, void **out1, void **out2)
 {
     const size_t d1_capacity = (iter->d1->capacity - 1);
-    const size_t d1_last     = (iter->d1->last) & d1_capacity;
-    const size_t d1_first    = (iter->d1->first) & d1_capacity;
 
     if (iter->index >= iter->d1->size)
         return CC_ITER_END;
 
     const size_t d2_capacity = (iter->d2->capacity - 1);
-    const size_t d2_last     = (iter->d2->last) & d2_capacity;
-    const size_t d2_first    = (iter->d2->first) & d2_capacity;
 
     if (iter->index >= iter->d2->size)
          return CC_ITER_END;
